@@ -257,6 +257,10 @@ var c12Grafts = map[string][]struct {
 		{jpath{"status"}, `{"hostIP":"not-an-ip","podIPs":[{"ip":"10.0.0.9"}]}`},
 		{jpath{"status"}, `{"hostIP":"10.0.0.1","podIPs":[{"ip":"fe80::2"},{"ip":""}]}`},
 		{jpath{"status"}, `{"hostIP":"10.0.0.1","podIP":"10.0.0.9"}`},
+		{jpath{"status"}, `{"hostIPs":[],"podIPs":[{"ip":"10.0.0.9"}]}`},
+		{jpath{"status"}, `{"hostIPs":[{"ip":"fe80::1"},{"ip":""}],"podIPs":[]}`},
+		{jpath{"status"}, `{"hostIP":"","hostIPs":[],"podIP":"","podIPs":[]}`},
+		{jpath{"status"}, `{"podIPs":[{}],"conditions":[],"containerStatuses":[]}`},
 		{jpath{"spec", "containers"}, `[]`},
 		{jpath{"metadata", "namespace"}, `"ingress-controller-ns"`},
 		{jpath{"metadata", "name"}, `"ingress-controller"`},
